@@ -8,7 +8,7 @@ from contracts import C35
 
 LEVEL = "other"
 MANIFEST_ENTRY = {
-    "text": "Check-before-use contracts at the four gates of a mutable read, hashes and RSA uninterpreted, Merkle trees by their own contract (C35, re-run here). (1) Public key: _try_to_set_pubkey installs a key only if ssk_pubkey_fingerprint_hash(key) equals the fingerprint in the capability, otherwise CorruptShareError. (2) Signature: _got_signature_one_share records a share's version in the servermap only if rsa.verify_signature(node pubkey, signature, signed prefix) succeeded for it, or the IDENTICAL version tuple (sequence number, root hash, salt, segment size, data length, k, N, prefix, offsets) was verified earlier in this update -- a version that merely shares sequence number and root hash is verified again; BadSignature becomes CorruptShareError and nothing is recorded. (3) Blocks: Retrieve._validate_block returns {shnum: (block, salt)} only after block_hash_tree.set_hashes(leaves={segnum: block_hash(salt+block or block)}) AND share_hash_tree.set_hashes(hashes, leaves={shnum: block tree root}) both returned normally -- whether or not further block hashes were needed -- and every refusal becomes CorruptShareError. (4) Private key: _try_to_validate_privkey installs a key only if ssk_writekey_hash(decrypted key) equals the write key of the capability.",
+    "text": "Check-before-use contracts at the four gates of a mutable read, hashes and RSA uninterpreted, Merkle trees by their own contract (C35, re-run here). (1) Public key: _try_to_set_pubkey installs a key only if ssk_pubkey_fingerprint_hash(key) equals the fingerprint in the capability, otherwise CorruptShareError. (2) Signature: _got_signature_one_share records a share's version in the servermap only if rsa.verify_signature(node pubkey, signature, signed prefix) succeeded for it, or the IDENTICAL version tuple (sequence number, root hash, salt, segment size, data length, k, N, prefix, offsets) was verified earlier in this update -- a version that merely shares sequence number and root hash is verified again; BadSignature becomes CorruptShareError and nothing is recorded. (3) Blocks: Retrieve._validate_block returns {shnum: (block, salt)} only after block_hash_tree.set_hashes(leaves={segnum: block_hash(salt+block or block)}) AND share_hash_tree.set_hashes(hashes, leaves={shnum: block tree root}) both returned normally -- whether or not further block hashes were needed -- and every refusal becomes CorruptShareError. A share whose hash chain cannot even be parsed is reported as a bad share (BadShareError), which the retrieve loop tolerates by using another share, not as a raw struct.error that aborts the read (MDMFSlotReadProxy.get_sharehashes). (4) Private key: _try_to_validate_privkey installs a key only if ssk_writekey_hash(decrypted key) equals the write key of the capability.",
     "note": "That the signed root hash is the root the share hash tree was seeded with (Retrieve._setup_download) and the order in which the gates are chained by Deferreds are not under contract. RSA and SHA-256d are assumed secure; what is proved is that no share data, version or key is used before its check passed.",
     "technique": "contract-based deductive verification (pyvc VCs + z3) with callee contracts for hash trees and uninterpreted crypto",
 }
@@ -283,5 +283,45 @@ class PrivkeyGate(Spec):
         return [("canary", z3.BoolVal(not self._pop))] if self._ok else []
 
 
+class ShareHashesOrBadShare(Spec):
+    """MDMFSlotReadProxy.get_sharehashes: a share hash chain that cannot be parsed (truncated inside an entry) makes the
+    share a BadShareError -- which Retrieve tolerates by trying another share -- never a raw struct.error"""
+    file = "allmydata/mutable/layout.py"
+    qualname = "MDMFSlotReadProxy.get_sharehashes"
+    cross_check = 0
+    raises = ()
+    canary_case = {"chain_len": 35}
+
+    def inputs(self):
+        return {"chain_len": ChoiceK([0, 34, 35, 67, 68, 33])}
+
+    def all_cases(self):
+        return [{"chain_len": n} for n in (0, 34, 35, 67, 68, 33)]
+
+    def run(self, I, a):
+        from pyvc.models_tahoe import DStub
+        d0 = DStub("pending")
+        chain = bytes((i * 7 + 1) % 256 for i in range(a["chain_len"]))
+        p = SObj(self.module().MDMFSlotReadProxy, {"shnum": 2, "_version_number": 1, "_offsets": {"share_hash_chain": 100, "signature": 100 + a["chain_len"], "block_hash_tree": 100 + a["chain_len"]}})
+        p.fields["_maybe_fetch_offsets_and_header"] = stub("x", f=lambda I_, a_, k_: d0).fields["f"]
+        p.fields["_read"] = stub("x", f=lambda I_, a_, k_: DStub("succeeded", {2: [chain]})).fields["f"]
+        d = I.call_value(self.target(I), [p], {})
+        res, _ = fire_chain(I, d0, None)
+        return res
+
+    def ensures(self, I, a, out):
+        from allmydata.mutable.common import BadShareError
+        import struct
+        whole = a["chain_len"] % 34 == 0
+        r = out.value
+        if whole:
+            return [("a-well-formed-chain-is-returned-as-a-map", z3.BoolVal(isinstance(r, dict) and len(r) == a["chain_len"] // 34))]
+        cls = getattr(r, "exc_cls", None)
+        return [("an-unparseable-chain-is-a-bad-share-not-a-crash", z3.BoolVal(is_failure(r) and isinstance(cls, type) and issubclass(cls, BadShareError) and not issubclass(cls, struct.error)))]
+
+    def canary(self, I, a, out):
+        return [("canary", z3.BoolVal(not is_failure(out.value)))]
+
+
 def contracts(tier):
-    return [ValidateBlock(), SignatureGate(), PubkeyGate(), PrivkeyGate()] + C35.contracts(tier)
+    return [ValidateBlock(), SignatureGate(), PubkeyGate(), PrivkeyGate(), ShareHashesOrBadShare()] + C35.contracts(tier)
